@@ -41,6 +41,28 @@ pub fn random_crop(rng: &mut Rng, sw: u32, sh: u32) -> CropSpec {
     }
 }
 
+/// a destination size together with a crop box whose size is the destination size plus / minus a
+/// fraction (or exactly equal) per dimension, with integer or fractional origin: exercises the
+/// decisions "is this pass required" right at their boundary
+pub fn near_size(rng: &mut Rng, sw: u32, sh: u32) -> (u32, u32, CropSpec) {
+    let dim = |rng: &mut Rng, s: u32| -> (u32, f64, f64) {
+        let d = rng.range(1, s.max(1) as u64) as u32;
+        let size = match rng.below(4) {
+            0 => d as f64,
+            1 => (d as f64 + 0.05 + 0.9 * rng.f64_unit()).min(s as f64),
+            2 => (d as f64 - 0.05 - 0.9 * rng.f64_unit()).max(0.1),
+            _ => d as f64 + 1e-9,
+        };
+        let room = (s as f64 - size).max(0.0);
+        let origin = if rng.chance(1, 2) { (room * rng.f64_unit()).floor() } else { room * rng.f64_unit() };
+        let size = size.min(s as f64 - origin);
+        (d, origin, size)
+    };
+    let (dw, l, w) = dim(rng, sw);
+    let (dh, t, h) = dim(rng, sh);
+    (dw, dh, CropSpec::Box(l, t, w, h))
+}
+
 pub fn random_size(rng: &mut Rng, max: u32) -> u32 {
     match rng.below(6) {
         0 => 1,
@@ -60,7 +82,14 @@ pub fn generate(out: &mut Out, seed: u64, thorough: bool) {
         let (dw, dh) = (random_size(&mut rng, max), random_size(&mut rng, max));
         let (ext_name, ext) = ex[rng.below(ex.len() as u64) as usize];
         let alg = AlgSpec::random(&mut rng);
-        let crop = random_crop(&mut rng, sw, sh);
+        let mut crop = random_crop(&mut rng, sw, sh);
+        let (mut dw, mut dh) = (dw, dh);
+        if i % 6 == 0 {
+            let (a, b, c) = near_size(&mut rng, sw, sh);
+            dw = a;
+            dh = b;
+            crop = c;
+        }
         let mode = rng.below(5);
         let case = Case {
             pt,
@@ -81,7 +110,7 @@ pub fn generate(out: &mut Out, seed: u64, thorough: bool) {
         out.count(&format!("alg:{}", case.alg.name.split(':').next().unwrap()));
         out.count(&format!("outcome:{}", got.split(':').next().unwrap()));
         out.count(&format!("content-mode:{}", mode));
-        let line = format!("{} fill=a5 got={}", line_prefix(&case), got);
+        let line = format!("{} fill=a5 got={} check=ideal", line_prefix(&case), got);
         let k = fnv(line.as_bytes());
         out.push(line, Some(k));
     }
